@@ -639,3 +639,37 @@ def leap_day_far_years(year: int) -> bool:
         except ValueError:
             pass
     return True
+
+
+# --- added after round-2 seeded changes: adjust-*-to-timezone (bug-hunting: CrossHair's datetime model does not exhaust) -----------
+
+TZ_OFFS = (-840, -300, -60, 0, 60, 330, 840)
+T_ADJ = parse_all({'date': 'adjust-date-to-timezone($d, $z)', 'dt': 'adjust-dateTime-to-timezone($t, $z)', 'dt_eq': 'adjust-dateTime-to-timezone($t, $z) eq $t',
+                   'time_eq': 'adjust-time-to-timezone($u, $z) eq $u', 'tz_of': 'timezone-from-dateTime(adjust-dateTime-to-timezone($t, $z))'})
+
+
+@ob(budget=60, tbudget=600, kind='hunt', bound='date/dateTime/time with a timezone from 7 offsets, target timezone from the same 7 (both chosen by the solver): adjusting preserves the instant, sets the target timezone, and is the identity when the offsets are equal',
+    funcs=['elementpath/xpath_tokens/base.py:adjust_datetime', 'elementpath/xpath2/_xpath2_functions.py:adjust-*-to-timezone'])
+def adjust_to_timezone_preserves_instant(oi: int, zi: int, hour: int) -> bool:
+    """
+    pre: 0 <= oi <= 6 and 0 <= zi <= 6 and 0 <= hour <= 23
+    post: _
+    """
+    tz = Timezone(datetime.timedelta(minutes=TZ_OFFS[oi]))
+    z = DayTimeDuration(seconds=TZ_OFFS[zi] * 60)
+    d = Date(2002, 3, 7, tzinfo=tz)
+    t = DateTime(2002, 3, 7, hour, 30, 0, tzinfo=tz)
+    u = Time(hour, 30, 0, tzinfo=tz)
+    v = dict(d=d, t=t, u=u, z=z)
+    if ev_(T_ADJ['dt_eq'], v) != [True] or ev_(T_ADJ['time_eq'], v) != [True]:
+        return False
+    if ev_(T_ADJ['tz_of'], v)[0].seconds != TZ_OFFS[zi] * 60:
+        return False
+    if oi == zi:
+        return str(ev_(T_ADJ['date'], v)[0]) == str(d) and str(ev_(T_ADJ['dt'], v)[0]) == str(t)
+    return True
+
+
+def ev_(tok, variables):
+    r = tok.evaluate(XPathContext(item=1, variables=variables))
+    return r if isinstance(r, list) else [r]
